@@ -174,12 +174,12 @@ fn setup_engine(state: &str) -> Option<(Inst, Tmpl)> {
     let dir = rpc::fresh_dir("C11");
     let mut inst = Inst::open(&dir).ok()?;
     inst.timeout = Duration::from_secs(20);
-    let mut st = Tmpl { tool: "0x00000000000000000000000000000000000000aa".into(), tx_hash: hist::ZERO_HASH.into(), block_hash: hist::ZERO_HASH.into(), fresh_hash: format!("0x{:064x}", 0xf11u64), raw_tx: "0x".into(), next_height: 0, n: 0 };
+    let mut st = Tmpl { tool: "0x00000000000000000000000000000000000000aa".into(), tx_hash: hist::ZERO_HASH.into(), block_hash: hist::ZERO_HASH.into(), fresh_hash: crate::hist::bh((0xf11u64) as u64), raw_tx: "0x".into(), next_height: 0, n: 0 };
     if state == "empty" {
         return Some((inst, st));
     }
     inst.call("brc20_initialise", json!({"genesis_hash": hist::ZERO_HASH, "genesis_timestamp": 1, "genesis_height": 0}));
-    let bh = format!("0x{:064x}", 0xc11u64);
+    let bh = crate::hist::bh((0xc11u64) as u64);
     let r = inst.call("brc20_deploy", json!({"from_pkscript": PK, "data": hist::hx(&asm::tool_init()), "timestamp": 2, "hash": bh, "tx_idx": 0, "inscription_id": "c12-setup-tool", "inscription_byte_len": 100000, "op_return_tx_id": hist::ZERO_HASH}));
     st.tool = hist::created_address(&r)?;
     st.tx_hash = hist::receipts_in(&r)[0]["transactionHash"].as_str()?.to_string();
@@ -197,7 +197,7 @@ fn setup_engine(state: &str) -> Option<(Inst, Tmpl)> {
         // parked transaction + one executed transaction in an open block
         let s2 = Signer::new(62);
         let raw = s2.sign(Some(rpc::chain_id_for("regtest")), 1, Some(hist::parse_addr(&st.tool)), &asm::tool_call(asm::OP_INC, &[asm::word_u64(2)], &[]));
-        let h = format!("0x{:064x}", 0x11b10cu64);
+        let h = crate::hist::bh((0x11b10cu64) as u64);
         inst.call("brc20_transact", json!({"raw_tx_data": format!("0x{}", raw), "timestamp": 9, "hash": h, "tx_idx": 0, "inscription_id": "c11-park", "inscription_byte_len": 100000, "op_return_tx_id": hist::ZERO_HASH}));
         inst.call("brc20_deposit", json!({"to_pkscript": PK, "ticker": "ordi", "amount": "0x1", "timestamp": 9, "hash": h, "tx_idx": 0, "inscription_id": "c11-mid"}));
     }
@@ -229,7 +229,7 @@ fn stage_a(shared: &Arc<Shared>, out: &mut ChildOut) -> BTreeMap<Nest, (String, 
         let names = inst.method_names();
         for m in &names {
             st.n += 1;
-            st.fresh_hash = format!("0x{:064x}", 0xf11_0000u64 + st.n);
+            st.fresh_hash = crate::hist::bh((0xf11_0000u64 + st.n) as u64);
             if state == "mid-block" && matches!(m.as_str(), "eth_call" | "eth_callMany" | "eth_estimateGas" | "eth_estimateGasMany" | "brc20_balance") {
                 continue; // would stall 5 s by design
             }
@@ -389,7 +389,7 @@ fn stress(shared: &Arc<Shared>, out: &mut ChildOut, secs: u64, seed: u64) {
             let mut n = 0u64;
             while !stop.load(Ordering::SeqCst) {
                 n += 1;
-                let h = format!("0x{:064x}", 0x57_0000u64 + n);
+                let h = crate::hist::bh((0x57_0000u64 + n) as u64);
                 let ts = 100 + n;
                 let k = rng.range(0, 3);
                 let mut cnt = 0;
